@@ -5,6 +5,7 @@ import (
 	"fmt"
 	"io"
 	"math/big"
+	"os"
 	"runtime"
 	"runtime/debug"
 	"sort"
@@ -803,6 +804,7 @@ func (w *world) opPick(op *Op) {
 	case out := <-pp.ch:
 		w.pickReturned(pp, out, keyed, refErr, R0, true)
 	default:
+		w.pend = append(w.pend, pp) // first of all: whatever happens next, the end of the case cancels it
 		if !isRR {
 			w.fail("C06", "A.pick.blocks", "%s: the pick is blocked although it is not a round-robin BIND", what)
 		}
@@ -810,7 +812,6 @@ func (w *world) opPick(op *Op) {
 			w.fail("C09|C06", "A'.blocked", "%s: round-robin BIND assigned to READY slot %d is blocked", what, pp.assigned)
 		}
 		w.labels["rr-bind-blocked"]++
-		w.pend = append(w.pend, pp)
 		w.checkPub(what, R0)
 	}
 }
@@ -849,6 +850,16 @@ func (w *world) rrLearn(pp *pendingPick, s int) {
 func (w *world) pickReturned(pp *pendingPick, out pickOut, keyed, refErr bool, R0 []int, immediate bool) {
 	what, p, m, stale := pp.what, pp.pub, pp.m, pp.stale
 	if out.panicv != nil {
+		if w.o.Props["C06"] && !w.o.Props["C05"] && w.cfgFixed {
+			// the panic itself is C05's business; C06 asks whether the call left a lock behind: the probe (a balancer
+			// callback and a plain pick) must still return - if not, the watchdog reports the hang
+			w.labels["lock-probe-after-a-panic"]++
+			CurOp.Store(what + " panicked; lock probe")
+			func() {
+				defer func() { recover() }()
+				w.b.UpdateSubConnState(&fsc{id: 2000, foreign: true}, balancer.SubConnState{ConnectivityState: connectivity.Connecting})
+			}()
+		}
 		w.fail("C05", "panic", "%s panicked: %v\n%s", what, out.panicv, out.stack)
 	}
 	res, err := out.res, out.err
@@ -1373,6 +1384,19 @@ func Exec(c *Case, o *Opts) (res Result) {
 				synctest.Wait()
 			}()
 		}
+		if os.Getenv("VERIF_DEBUG_BUBBLE") != "" {
+			buf := make([]byte, 1<<20)
+			buf = buf[:runtime.Stack(buf, true)]
+			n := 0
+			for _, g := range strings.Split(string(buf), "\n\n") {
+				if strings.Contains(g, "synctest bubble") {
+					n++
+					if n > 1 {
+						fmt.Fprintf(os.Stderr, "LEFT IN BUBBLE:\n%s\n\n", g)
+					}
+				}
+			}
+		}
 		if r := recover(); r != nil {
 			switch x := r.(type) {
 			case failure:
@@ -1518,6 +1542,22 @@ func (w *world) runOp(op *Op) {
 				w.doDone(len(w.calls)-1, 0, 0, nil)
 			} else if i > 3 {
 				break
+			}
+		}
+	case "rrjump":
+		// test device: move the round-robin cursor close to a point where a counter wraps (2^16, 2^31, 2^32); the model
+		// re-synchronises on the next assignment and then expects the cycle to go on without a seam
+		// (histories of 2^63 and more BIND calls are outside the domain: no value near 2^63 or 2^64 here)
+		vals := []uint64{1<<32 - 3, 1<<32 - 2, 1<<31 - 3, 1<<31 - 2, 1<<16 - 2, 1<<32 - 1, 1<<31 - 1, 7}
+		if w.b != nil && w.cfgFixed && len(w.pend) == 0 && len(w.slots) > 0 {
+			if grpcgcp.VerifSetRRCursor(w.b, vals[((op.N%len(vals))+len(vals))%len(vals)]) {
+				w.rrSynced, w.rrLastUns = false, nil
+				if w.rrLen == 0 {
+					w.rrLen = len(w.slots)
+				}
+				w.labels["rr-cursor-moved-near-a-wrap-point"]++
+			} else {
+				w.labels["rr-cursor-hook-unavailable"]++
 			}
 		}
 	case "failnew":
